@@ -206,6 +206,45 @@ func genScaleExp(t *rapid.T) int {
 	return ir(t, -13000, 13000, "expWide")
 }
 
+// subnormalTie returns (c, k): a coefficient of at most maxLen digits made of a retained head, a dropped part of k
+// digits that is an exact tie, a tie plus or minus one digit somewhere below, or 0/…/9 followed by zeros with a
+// single stray digit, so that scaling c down by k places below the smallest exponent exercises every way a
+// multi-digit reduction step can lose the sticky information (the digit two, three or four places below the
+// rounding digit).
+func subnormalTie(t *rapid.T, maxLen int) (*big.Int, int) {
+	k := ir(t, 1, maxLen-1, "drop")
+	alen := ir(t, 0, maxLen-k, "alen")
+	a := new(big.Int)
+	if alen > 0 {
+		a = genDigits(t, alen)
+		switch ir(t, 0, 3, "parity") {
+		case 0:
+			a.SetBit(a, 0, 0) // even head: ties go down
+		case 1:
+			a.SetBit(a, 0, 1)
+		}
+	}
+	lead := int64([]int{5, 5, 5, 0, 4, 9}[ir(t, 0, 5, "leadDigit")])
+	tail := new(big.Int).Mul(big.NewInt(lead), ref.Pow10(k-1))
+	if k > 1 && ir(t, 0, 3, "stray") != 0 {
+		j := ir(t, 0, k-2, "strayPos")
+		d := int64(ir(t, 1, 9, "strayDigit"))
+		if lead == 5 && ir(t, 0, 3, "below") == 0 {
+			// 4999..9 with one digit lowered: just under the tie
+			tail.Sub(tail, new(big.Int).Mul(big.NewInt(d), ref.Pow10(j)))
+		} else {
+			tail.Add(tail, new(big.Int).Mul(big.NewInt(d), ref.Pow10(j)))
+		}
+	}
+	c := new(big.Int).Mul(a, ref.Pow10(k))
+	c.Add(c, tail)
+	if c.Sign() <= 0 {
+		c.SetInt64(5)
+		k = 1
+	}
+	return c, k
+}
+
 // topBandLead returns (c, e) with c a k-digit number (k <= maxK) next to the first k digits of the largest
 // coefficient and e = 6111 + (35 - k) (sometimes one off): c * 10^e sits at the very top of the range, where the
 // exponent excess has to be moved into the coefficient and the result is finite only if c * 10^(35-k) <= Cmax.
@@ -242,7 +281,16 @@ func topBandLead(t *rapid.T, maxK int) (*big.Int, int) {
 func TestC11_New(t *testing.T) {
 	runRapid(t, 150000, 5000000, func(t *rapid.T) {
 		var sig int64
-		switch ir(t, 0, 6, "sigKind") {
+		switch ir(t, 0, 7, "sigKind") {
+		case 7:
+			// results below the smallest exponent whose dropped digits sit on or next to a tie
+			c, k := subnormalTie(t, 18)
+			sig = c.Int64()
+			if rapid.Bool().Draw(t, "neg") {
+				sig = -sig
+			}
+			c11new.Run(t, c11NewArgs{Sig: sig, Exp: ref.Emin - k})
+			return
 		case 0:
 			sig = []int64{math.MinInt64, math.MinInt64 + 1, math.MaxInt64, math.MaxInt64 - 1, 1, -1, 5, -5, 0}[ir(t, 0, 8, "bound")]
 		case 1:
@@ -278,6 +326,12 @@ func TestC11_Ldexp(t *testing.T) {
 			f = genAny(t)
 		} else {
 			f = genFinite(t)
+		}
+		if ir(t, 0, 9, "subTie") == 0 {
+			c, k := subnormalTie(t, 34)
+			fe := genExp(t)
+			c11ldexp.Run(t, c11LdexpArgs{Frac: DFin(genSign(t), c, fe), Exp: ref.Emin - k - fe})
+			return
 		}
 		if ir(t, 0, 9, "topBand") == 0 {
 			lead, e := topBandLead(t, 35)
